@@ -133,7 +133,10 @@ class FileProxy:
         return self
 
     def __exit__(self, *a):
+        # leaving a `with` block closes the file: an I/O step like any other close
+        self._log.boundary("close", self._label)
         self._f.close()
+        self._log.after("close")
         return False
 
 
@@ -149,6 +152,14 @@ class OsProxy:
         r = os.fsync(fd)
         self._log.after("fsync")
         return r
+
+    def replace(self, src, dst):
+        self._log.boundary("replace", dst)
+        return os.replace(src, dst)
+
+    def remove(self, p):
+        self._log.boundary("remove", p)
+        return os.remove(p)
 
 
 class ShutilProxy:
@@ -172,6 +183,29 @@ class ShutilProxy:
             d.write(data[len(data) // 2:])
         self._log.boundary("copy-done", dst)
         return dst
+
+    def move(self, src, dst):
+        # shutil.move is a rename only inside one file system; across file systems it is copy (truncating the destination first) + unlink
+        same_fs = os.stat(src).st_dev == os.stat(os.path.dirname(os.path.abspath(dst)) or ".").st_dev
+        if same_fs:
+            self._log.boundary("rename", dst)
+            os.rename(src, dst)
+        else:
+            self.copy(src, dst)
+            self._log.boundary("remove", src)
+            os.unlink(src)
+        return dst
+
+
+def other_filesystem_dir(base):
+    """a scratch directory on a file system different from `base`'s, or None"""
+    for cand in ("/dev/shm", "/run", "/var/tmp"):
+        try:
+            if os.path.isdir(cand) and os.access(cand, os.W_OK) and os.stat(cand).st_dev != os.stat(base).st_dev:
+                return tempfile.mkdtemp(dir=cand, prefix="csvio-")
+        except OSError:
+            pass
+    return None
 
 
 def install(log):
@@ -418,7 +452,7 @@ def c08(tier, seed, F):
 def op_list(rnd, k):
     ops = []
     for _ in range(k):
-        ops.append(rnd.choice(["ins", "ins", "ins", "ooo", "insm", "get", "contains", "rm", "rm0", "upd", "upd0", "rmall", "drop", "len", "search", "reindex", "getters"]))
+        ops.append(rnd.choice(["ins", "ins", "ins", "ooo", "insm", "get", "contains", "rm", "rm0", "upd", "upd0", "rmall", "drop", "len", "search", "reindex", "getters", "updsame", "updsame_q"]))
     return ops
 
 
@@ -462,6 +496,11 @@ def apply_op(db, model, op, rnd, compact=False):
         return [(k[0], k[1], tuple(sorted(dict(k[2], u="é").items())), k[3]) if k[1] == "m1" else k for k in model]
     elif op == "upd0":
         db.update(MeasurementQuery() == "nope", tags={"u": "w"})
+    elif op == "updsame":
+        # matches every point and changes none of them: a no-op write
+        db.update_all(unset_tags="zz never there")
+    elif op == "updsame_q":
+        db.update(MeasurementQuery() == "m1", unset_fields=["zz never there"])
     elif op == "rmall":
         db.remove_all()
         return []
@@ -471,7 +510,7 @@ def apply_op(db, model, op, rnd, compact=False):
     return model
 
 
-READS = {"get", "contains", "search", "len", "reindex", "getters", "rm0", "upd0"}
+READS = {"get", "contains", "search", "len", "reindex", "getters", "rm0", "upd0", "updsame", "updsame_q"}
 CONFIGS = [dict(), dict(flush_on_insert=False), dict(encoding="utf-8"), dict(encoding="utf-16"), dict(encoding="latin-1"), dict(delimiter=";"), dict(quoting=csv.QUOTE_ALL), dict(flush_on_insert=False, encoding="utf-8", delimiter="|")]
 
 
@@ -544,12 +583,13 @@ def c15(tier, seed, F):
             path = os.path.join(dbdir, "db.csv")
             db = TinyFlux(path, auto_index=rnd.random() < 0.5)
             model = []
+            compact = h % 2 == 1  # rows written with the compact key prefixes: a needless rewrite would re-spell them
             for op in op_list(rnd, rnd.randint(2, 7)):
                 before = open(path, "rb").read()
                 tmp_before, dir_before = set(os.listdir(td)), set(os.listdir(dbdir))
                 raised = None
                 try:
-                    model = apply_op(db, model, op, rnd)
+                    model = apply_op(db, model, op, rnd, compact=compact)
                 except Exception as ex:
                     raised = ex
                 n += 1
@@ -655,9 +695,11 @@ def c12(tier, seed, F):
     rnd = random.Random(seed)
     n = 0
     d = tempfile.mkdtemp()
+    # every fourth history keeps the database on another file system than the temporary files (when the machine has one)
+    d2 = other_filesystem_dir(tempfile.gettempdir())
     try:
         for h in range(60 if tier == "quick" else 500):
-            path = os.path.join(d, "c12_%d.csv" % h)
+            path = os.path.join(d2 if (d2 and h % 4 == 3) else d, "c12_%d.csv" % h)
             log = IOLog(path)
             install(log)
             try:
@@ -699,6 +741,8 @@ def c12(tier, seed, F):
                     F.note("really killing the process at %s during %s leaves an unreadable file (%s)" % (b, op, type(ex).__name__))
     finally:
         shutil.rmtree(d, ignore_errors=True)
+        if d2:
+            shutil.rmtree(d2, ignore_errors=True)
     return n
 
 
